@@ -48,6 +48,17 @@ def gen(rng, A, count):
         if rng.random() < 0.1:
             p["stopat"] = rng.randrange(1, N + 1)
         out.append(p)
+    # every algorithm with NaN (and pairs of infinities, whose difference is NaN) at several early evaluations
+    for nm in names:
+        for rep in range(max(2, count // 160)):
+            n = rng.choice([2, 3, 4, 5])
+            if nm == "NLOPT_GN_AGS":
+                n = rng.choice([2, 3])
+            p = problems.gen_problem(rng, A, alg_name=nm, n=n, maxeval=rng.choice([40, 120]), box="finite")
+            ks = sorted(rng.sample(range(2, 36), 3))
+            v = rng.choice(["7ff8000000000000", "7ff0000000000000", "fff0000000000000"])
+            p["inj"] = ",".join("%d:%s" % (k, v) for k in ks + [ks[0] + 1])
+            out.append(p)
     return out
 
 
